@@ -3,7 +3,7 @@ O1..O8 of the tri-colour argument, each for all abstract pre-states, plus call-s
 from gcv import typestate
 from gcv.props import common
 
-PRIMS = ["context::Context::sweep_one", "<<context::Context as core::ops::drop::Drop>::drop::DropAll as core::ops::drop::Drop>::drop"]
+PRIMS = ["context::Context::sweep_one"]      # + the arena-drop walker (DropAll), resolved by shape per program
 # collector primitives whose every abstract pre-state is interpreted by a transition table above: a destruct /
 # release below one of them is judged by that table's safety spec (it alarms iff the object may be strongly
 # reachable), so the who-may-call rule only has to exclude sites that no table covers
@@ -39,6 +39,7 @@ def run_config(chk, tier, cfgname):
     common.protocol_rows(chk, prog, "O5-O8-protocol", ["collect_debt", "finish_cycle", "start_sweeping", "cycle_debt"],
                          per_method=False, aspects=("safety",))
     # O1 free-site discipline
+    PRIMS = globals()["PRIMS"] + [prog.arena_drop_walker()]
     n = common.confined(chk, prog, "O1-free-sites", "gc_ptr::GcPtr::drop_in_place", PRIMS + TABLED,
                         "value destructed outside sweep/arena drop and outside every table-analysed primitive")
     n += common.confined(chk, prog, "O1-free-sites", "gc_ptr::GcPtr::dealloc",
@@ -152,14 +153,14 @@ def initial_collector_state(chk, prog, T, c):
             probs.append("no normal outcome")
         for o in outs:      # several under the `tracing` feature (opaque logging calls fork); all must be clean
             v = o.value
-            get = lambda name: v[3][m.ctx_fields.index(name)]
+            get = lambda name: v[3][m.ctx_index(name)]
             if gcmodel.phase_name(prog, get("phase")) != "Sleep":
                 probs.append("phase %s" % gcmodel.phase_name(prog, get("phase")))
             for f in ("all", "sweep", "sweep_prev"):
                 x = get(f)
                 if not (x[0] == "adt" and x[2] == 0):
                     probs.append("%s is not None" % f)
-            if get("root_needs_trace") != ("i", 1):
+            if m.flag_decode(get("root_needs_trace")) != 1:
                 probs.append("root_needs_trace is %s: the first cycle would not trace the root" % (get("root_needs_trace"),))
             for q in ("gray", "gray_again"):
                 x = get(q)
